@@ -17,6 +17,13 @@ Binding A
     LIVE function_signatures table + the xs: constructors (binding C), classes: untyped node,
     xs:untypedAtomic valid/invalid, empty, wrong-typed atomics, sequence, function/map/array item, huge
     negative integer, malformed URI, U+0000 -- is rendered to a call and judged the same way;
+  * calls of the F&O functions with a $collation parameter take the collation classes of ArgClass.tla
+    (codepoint / html-ascii / UCA URIs, the locale active for LC_COLLATE at run time, 'C', 'POSIX', 'C.utf8',
+    unknown, empty), are made TWICE in a row in one process, and once more through default_collation; a
+    collation lock left held after a legal return is a failure of its own (kind lock-held);
+  * the PUMP family of Tokens.tla: head unit^n mid post^n tail for n in {1, 30, 200} (unterminated string
+    literals of both quote kinds, comments, digit / dot / name / exponent runs, nesting, long prefixes ...):
+    10 s watchdog, and for pumps with inv = TRUE the outcome class must not depend on n;
   * the seed expressions of Tokens.tla (FLWOR, quantifiers, typed array/map tests, inline functions, arrow,
     lookup ...) with ALL their one-token mutations, and the stress vectors (deep nesting, long literals);
   * every path of the ParserLife graph (parse histories of <= MaxCalls calls over 10 source classes
@@ -584,7 +591,7 @@ def mut_worker(job):
 # ---- function-call family (spec/ArgClass.tla) ----------------------------------------------------
 
 ARG_CLASSES = ["attr", "elem", "untyped_bad", "untyped_ok", "empty", "wrong_str", "wrong_num", "wrong_dur",
-               "wrong_numstr", "seq", "func", "map", "array", "bigneg", "baduri", "nul"]
+               "wrong_numstr", "seq", "func", "map", "array", "bigneg", "hugeint", "baduri", "nul"]
 # binding table: item type -> (an expression of that type, a valid lexical form of that type)
 TYPE_TABLE = {
     'xs:string': ("'a'", 'a'), 'xs:integer': ('1', '1'), 'xs:double': ('1.5e0', '1.5'), 'xs:decimal': ('1.5', '1.5'),
@@ -608,7 +615,7 @@ for _t in ('nonPositiveInteger', 'negativeInteger'):
     TYPE_TABLE['xs:' + _t] = ('-1', '-1')
 CLASS_TEXT = {'attr': '/a/@x', 'elem': '/a/b', 'untyped_bad': "xs:untypedAtomic('x')", 'empty': '()', 'wrong_str': "'s'",
               'wrong_num': '1', 'wrong_numstr': "'1'", 'wrong_dur': "xs:dayTimeDuration('PT1S')", 'func': 'fn:abs#1', 'map': 'map{}', 'array': '[]',
-              'bigneg': '-1000000000000', 'baduri': "'http://['", 'nul': "'\x00'"}
+              'bigneg': '-1000000000000', 'hugeint': '9' * 400, 'baduri': "'http://['", 'nul': "'\x00'"}
 
 
 COLL_CLASSES = ["coll_codepoint", "coll_html", "coll_uca", "coll_current", "coll_C", "coll_POSIX", "coll_Cutf8",
